@@ -4,7 +4,7 @@ import itertools, json, os, random, re
 import vlib
 from vlib import Result, log
 
-THEOREMS = ["C13_enum_key_sound", "C13_union_key_sound", "C13_canonical_sound", "C13_value_union_key_sound", "C13_old_enum_key_refuted", "C13_old_union_key_refuted", "C13_old_value_union_key_refuted", "C13_nonvacuous", "C13_canonical_nonvacuous"]
+THEOREMS = ["C13_enum_key_sound", "C13_union_key_sound", "C13_canonical_sound", "C13_value_union_key_sound", "C13_response_signature_sound", "C13_response_variant_media", "C13_signature_nonvacuous", "C13_old_enum_key_refuted", "C13_old_union_key_refuted", "C13_old_value_union_key_refuted", "C13_nonvacuous", "C13_canonical_nonvacuous"]
 TARGETS = ["Props/C13.v"]
 
 
@@ -381,7 +381,7 @@ def classify_scenario(name):
 def main(tier, seed, replay=None):
     res = Result("C13", tier, seed)
     vlib.build_repo()
-    coq_ok, out = vlib.standard_coq_obligations(res, TARGETS, THEOREMS, expect_closed=7)
+    coq_ok, out = vlib.standard_coq_obligations(res, TARGETS, THEOREMS, expect_closed=9)
     rng = random.Random(seed * 131 + 13)
     fam = families()
     cases = []
@@ -467,9 +467,9 @@ def main(tier, seed, replay=None):
     for c in cases[:4]:
         res.sample(c)
     res.cov["trusted_base"] = vlib.COMMON_TRUSTED + [
-        "coq/Model/Canon.v: hand model of CanonicalSchema::from_schema (normalize_schema_semantics + RFC 8785 member ordering)", "coq/Model/Sharing.v: hand model of the enum key (EnumValueEntry::cache_key / entries_to_cache_key) and the union key (union_type / build_union_fingerprints / UnionRegistry)",
+        "coq/Model/Canon.v: hand model of CanonicalSchema::from_schema (normalize_schema_semantics + RFC 8785 member ordering)", "coq/Model/Dedup.v: hand model of the response-enum signature (compute_signature)", "coq/Model/Sharing.v: hand model of the enum key (EnumValueEntry::cache_key / entries_to_cache_key) and the union key (union_type / build_union_fingerprints / UnionRegistry)",
         "lib/c13.py split_items / closure_text: item splitting of prettyplease output and name-placeholder normalisation"]
-    res.assumptions = ["PARTIAL: soundness of the two identity keys is proved on the model; canonical-schema identity is proved to identify only reorderings; that response-enum signatures and merge by type name do not merge wire-different types is covered by the differential matrix only",
+    res.assumptions = ["PARTIAL: soundness of the two identity keys is proved on the model; canonical-schema identity is proved to identify only reorderings; response-enum signatures are proved to identify only equal variant multisets (the signature's ingredients — status, variant name, category, schema type text — are read off the code); that merge by type name does not merge wire-different types is covered by the differential matrix only",
                        "the oracle compares emitted definitions, not run-time behaviour: a textual difference that is wire-neutral would be reported as a difference (none occurs on the unchanged tree)"]
     kf = {k["key"]: k["text"] for k in vlib.known_findings("C13")}
     seen_known, real = set(), []
